@@ -33,6 +33,8 @@ ASSUMPTIONS = [
     'an interrupted or transiently failed evaluate() makes no claim about its own result; every later call is judged exactly',
     'get_cell_value of a formula cell may return the last directly evaluated value or any value a dependency visit could legitimately have written since',
     'exceptions are compared by class only, never by message',
+    'cells reading the clock (NOW, TODAY; 10% of the worlds) are judged against a twin compiled and evaluated at the same simulated instant by the pristine process',
+    'a checkpoint re-load that fails (truncated file, read error) leaves the history unchanged: the file held the same contents as the live model, so either outcome of the load must keep satisfying the statement',
 ]
 SAFETY_STEPS = 2_000_000
 
